@@ -1,4 +1,6 @@
 import GoLevel.Model.Durable
+import GoLevel.Model.RecoverOps
+import GoLevel.Model.DurableBytes
 import GoLevel.Driver.Key
 import GoLevel.Driver.Journal
 /-!
@@ -16,6 +18,12 @@ dur table <num> <n> (<ikey-hex> <val-hex>)*         ⇒ ok      table file, as i
 dur tablebad <num>                                  ⇒ ok      table file present but unreadable
 dur recover                                         ⇒ ok <nlive> <crc32c hex (8 digits) of "<hexk>=<hexv>\n"…>
                                                      | err <missing-files|corrupted|other>
+                                                       With the default strict flags and `cfg 1` (the repaired code) the
+                                                       answer is computed by `Dur.recoverBytes` (`Model/DurableBytes.lean`:
+                                                       every file decoded with the real readers, then the record-level
+                                                       `Dur.recoverR`) — the function `C04.crash_consistent_bytes` is
+                                                       about; otherwise by the streaming `Dur.recover`.
+dur recoverold                                      ⇒ the same, always by the streaming `Dur.recover`
 dur rebuild                                         ⇒ ok <nlive> <crc>      what `leveldb.Recover` makes of the tables
                                                        and journals of the image (`Dur.rebuildImage`; the manifest
                                                        and `CURRENT` are not needed)
@@ -46,6 +54,25 @@ dur w reopen                                        ⇒ ok <nlive> <crc>   conte
 dur w crash                                         ⇒ ok <nlive> <crc>   contents after a crash that loses every unsynced
                                                        journal byte + Open
 ```
+`Recover` as storage operations (C19, `Model/RecoverOps.lean`); the image lines above give the storage `Recover` starts
+on — the driver turns it into an `RDisk` (every table entry becomes a one-record group, journal and manifest files
+are decoded into their records, everything durable):
+```
+dur dmg <num>                                       ⇒ ok      table <num> has a corrupted block or key (its `dur table`
+                                                       line holds what an iterator still yields)
+dur strictrec <0|1>                                 ⇒ ok      `opt.StrictRecovery` (default 0)
+dur rops                                            ⇒ ok <op>*   the mutating storage operations of `recoverTable` the model
+                                                       predicts (`recoverTableOps codeRCfg`): `c:<f>` create, `w:<f>` write,
+                                                       `s:<f>` sync, `r:<tmp>><table>` rename, `meta:<n>` SetMeta;
+                                                       `<f>` = `t<n>` temp, `m<n>` manifest, `b<n>` table, `j<n>` journal
+dur rops3                                           ⇒ ok <op>*   the same for `openDB` (`openOps`), without the janitor's removals
+                                                       (`d:b<n>`, `d:m<n>`: their order follows `Storage.List`)
+dur rcrash <k> <kept|lost>                          ⇒ ok O:<ok:<nlive>:<crc>|err> A:<nlive>:<crc>
+                                                       the process (`kept`: everything written stays) or the machine
+                                                       (`lost`: every unsynced byte is lost) dies after `k` operations of
+                                                       `Recover`: `O` = what `Open` makes of the image (`Dur.recoverR`),
+                                                       `A` = the contents after a second `Recover` (`Dur.rebuild ∘ scanIn`)
+```
 Hex lower case, `-` for the empty string.  The digest runs over the live pairs sorted bytewise by raw key
 (whatever the comparer), key and value in lower-case hex with `-` for the empty string (`gen.Hex`).
 -/
@@ -61,6 +88,9 @@ structure DurState where
   wcfg : Cfg := {}
   wm : St × Disk := Dur.init
   wcur : Option (List Batch.Rec × Bool) := none
+  /-- C19 operations model: damaged tables, `StrictRecovery` -/
+  dmg : List Nat := []
+  strictRec : Bool := false
 
 /-- `Comparer.Name()` of the comparers both sides know (`harness/gen.Comparer`) -/
 def cmpNameById (id : String) : Bytes :=
@@ -184,8 +214,98 @@ def handleW (st : DurState) : List String → Option (DurState × String)
     | .error e => some (st, s!"err {errStr e}")
   | _ => none
 
+/-! ### `Recover` as storage operations -/
+
+/-- a table entry as a one-record group -/
+def entryGrp (e : Entry) : Grp := ⟨e.seq, [⟨e.kind, e.ukey, e.val⟩], true⟩
+
+/-- the records of a journal file as `recoverJournal` (non-strict) delivers them -/
+def journalGrps (f : StrictFlags) (bytes : Bytes) : List Grp :=
+  (Journal.decode f.journal f.journalChecksum bytes).records.filterMap fun p =>
+    (Batch.decode p).map fun (seq, rs) => ⟨seq, rs, false⟩
+
+/-- the records of a manifest file; one that does not decode counts as torn -/
+def manifestRecs (bytes : Bytes) : List MRec :=
+  (Manifest.readRecords false bytes).1.map fun (p, _) =>
+    match Manifest.SessionRecord.decode p with
+    | some r => { snapshot := r.comparer.isSome, jn := r.journalNum, sq := r.seqNum, nf := r.nextFileNum.getD 0,
+                  added := r.added.map (·.num), deleted := r.deleted.map (·.2) }
+    | none => { torn := true }
+
+/-- the storage `Recover` starts on: everything on it is durable; files in number order -/
+def toRDisk (st : DurState) : RDisk :=
+  let byNum {α : Type} (l : List (Nat × α)) : List (Nat × α) := l.mergeSort fun a b => a.1 ≤ b.1
+  { disk := { current := st.img.current
+              manifests := byNum (st.img.manifests.map fun (n, b) => (n, ⟨manifestRecs b, []⟩))
+              journals := byNum (st.img.journals.map fun (n, b) => (n, ⟨journalGrps st.flags b, []⟩))
+              tables := byNum (st.img.tables.map fun (n, t) =>
+                match t with
+                | some es => (n, ⟨es.map entryGrp, true, false⟩)
+                | none => (n, ⟨[], true, true⟩)) }
+    dmg := st.dmg }
+
+def fkStr : FKind → String | .manifest => "m" | .journal => "j" | .table => "b"
+
+def ropStr : ROp → String
+  | .base (.create k n) => s!"c:{fkStr k}{n}"
+  | .base (.writeM n _) => s!"w:m{n}"
+  | .base (.writeJ n _) => s!"w:j{n}"
+  | .base (.writeT n _) => s!"w:b{n}"
+  | .base (.sync k n) => s!"s:{fkStr k}{n}"
+  | .base (.close k n) => s!"x:{fkStr k}{n}"
+  | .base (.remove k n) => s!"d:{fkStr k}{n}"
+  | .base (.renameT a b) => s!"r:b{a}>{b}"
+  | .base (.setMeta n) => s!"meta:{n}"
+  | .createTemp k => s!"c:t{k}"
+  | .writeTemp k _ => s!"w:t{k}"
+  | .syncTemp k => s!"s:t{k}"
+  | .renameTemp k n => s!"r:{k}>{n}"
+
+def handleROps (st : DurState) : List String → Option (DurState × String)
+  | ["dmg", n] => do
+    let n ← n.toNat?
+    pure ({ st with dmg := st.dmg ++ [n] }, "ok")
+  | ["strictrec", b] => do
+    let b ← bit? b
+    pure ({ st with strictRec := b }, "ok")
+  | ["rops"] =>
+    let ops := recoverTableOps (codeRCfg st.strictRec) (toRDisk st)
+    some (st, " ".intercalate ("ok" :: ops.map ropStr))
+  | ["rops3"] =>
+    let rcfg := codeRCfg st.strictRec
+    let r0 := toRDisk st
+    let ops := (recoverOps rcfg r0).drop (recoverTableOps rcfg r0).length
+    let janitor : ROp → Bool
+      | .base (.remove .table _) => true
+      | .base (.remove .manifest _) => true
+      | _ => false
+    some (st, " ".intercalate ("ok" :: (ops.filter (!janitor ·)).map ropStr))
+  | ["rcrash", k, how] => do
+    let k ← k.toNat?
+    let c ← cmpById st.cmpId
+    let rcfg := codeRCfg st.strictRec
+    let r0 := toRDisk st
+    let r1 := r0.applyAll ((recoverOps rcfg r0).take k)
+    let ch ← if how = "kept" then some (rkeepAll r1) else if how = "lost" then some ({} : RCrash) else none
+    let r2 := rcrash ch r1
+    let o := match recoverR st.cfg r2.disk with
+      | .ok rs =>
+        -- a scan of the opened DB fails on a live table that still has a corrupted block
+        if rs.mv.live.any (r2.dmg.contains ·) then "ok:scan-error"
+        else let ps := rs.contents c; s!"ok:{ps.length}:{contentsDigest ps}"
+      | .error _ => "err"
+    let rb := rebuild (scanIn rcfg r2)
+    let ps := contentsOf c rb.entries rb.seq
+    pure (st, s!"ok O:{o} A:{ps.length}:{contentsDigest ps}")
+  | _ => none
+
 def handleDur (st : DurState) : List String → Option (DurState × String)
   | "w" :: rest => handleW st rest
+  | "dmg" :: rest => handleROps st ("dmg" :: rest)
+  | "strictrec" :: rest => handleROps st ("strictrec" :: rest)
+  | "rops" :: rest => handleROps st ("rops" :: rest)
+  | "rops3" :: rest => handleROps st ("rops3" :: rest)
+  | "rcrash" :: rest => handleROps st ("rcrash" :: rest)
   | ["reset", c] => do
     let _ ← cmpById c
     pure ({ cmpId := c }, "ok")
@@ -214,6 +334,18 @@ def handleDur (st : DurState) : List String → Option (DurState × String)
     let n ← n.toNat?
     pure ({ st with img := { st.img with tables := st.img.tables ++ [(n, none)] } }, "ok")
   | ["recover"] => do
+    let c ← cmpById st.cmpId
+    if st.flags = {} ∧ st.cfg.failedRecordLeavesNoTrace = true then
+      match recoverImage st.cfg (cmpNameById st.cmpId) st.img with
+      | .error e => pure (st, s!"err {errStr e}")
+      | .ok r => pure (st, digestLine (r.contents c))
+    else
+      match recover st.cfg (cmpNameById st.cmpId) st.flags st.img with
+      | .error e => pure (st, s!"err {errStr e}")
+      | .ok r =>
+        let ps := contents c r
+        pure (st, s!"ok {ps.length} {contentsDigest ps}")
+  | ["recoverold"] => do
     let c ← cmpById st.cmpId
     match recover st.cfg (cmpNameById st.cmpId) st.flags st.img with
     | .error e => pure (st, s!"err {errStr e}")
